@@ -34,6 +34,8 @@ Proof. intros. apply eval_some; auto. Qed.
 
 Lemma stat_OR : forall rho e, closed rho (vars e) -> ob_stat (OR e rho) <> FMissing.
 Proof. intros rho e H. cbn. destruct (eval rho e) eqn:E; [discriminate|exfalso; exact (closed_eval _ _ H E)]. Qed.
+Lemma stat_OF : forall rho e, closed rho (vars e) -> ob_stat (OF e rho) <> FMissing.
+Proof. intros rho e H. cbn. destruct (eval rho e) eqn:E; [discriminate|exfalso; exact (closed_eval _ _ H E)]. Qed.
 Lemma stat_OI : forall rho e, closed rho (vars e) -> ob_stat (OI e rho) <> FMissing.
 Proof.
   intros rho e H. cbn. destruct (eval rho e) eqn:E; [|exfalso; exact (closed_eval _ _ H E)].
@@ -65,6 +67,14 @@ Proof.
   unfold vars_l in C; cbn in C. apply closed_app in C as [C1 C2].
   apply NM_cons; [apply stat_OR; auto|apply IH; auto].
 Qed.
+Lemma NM_obs_f : forall rho es, closed rho (vars_l es) -> NM (obs_f rho es).
+Proof.
+  induction es as [|e es IH]; intros C; cbn; [apply NM_nil|].
+  unfold vars_l in C; cbn in C. apply closed_app in C as [C1 C2].
+  apply NM_cons; [apply stat_OF; auto|apply IH; auto].
+Qed.
+Lemma closed_kept : forall rho dr l, closed rho (vars_l (map snd l)) -> closed rho (vars_l (kept dr l)).
+Proof. intros. eapply closed_sub; [|exact H]. apply kept_vars. Qed.
 Lemma NM_obs_m : forall rho ms, closed rho (mvars_l ms) -> NM (obs_m rho ms).
 Proof.
   induction ms as [|[b l] ms IH]; intros C; cbn; [apply NM_nil|].
@@ -92,9 +102,11 @@ Proof.
     split; [|apply NM_obs_m; auto]. apply NM_app. split; [apply NM_obs_c; auto|].
     destruct k.
     + apply NM_app; split; [apply NM_obs_r; auto|]. apply NM_cons; [apply stat_OR; auto|apply NM_nil].
-    + destruct drop; [apply NM_nil|]. apply NM_cons; [apply stat_OR; auto|].
+    + destruct (adrop chs drop); [apply NM_nil|]. apply NM_cons; [apply stat_OR; auto|].
       destruct (nonzero rho dur); [apply NM_obs_r; auto|apply NM_nil].
-    + destruct drop; [apply NM_nil|]. apply NM_cons; [apply stat_OR; auto|apply NM_obs_r; auto].
+    + destruct (adrop chs drop); [apply NM_nil|]. apply NM_cons; [apply stat_OR; auto|apply NM_obs_f; auto].
+    + apply NM_cons; [apply stat_OR; auto|]. destruct (positive rho dur); [|apply NM_nil].
+      apply NM_obs_r. eapply closed_sub; [|exact Cr]. apply kept_combine_vars.
   - apply closed_app in C as [Cm C]. apply closed_app in C as [Cc Cs].
     cbn [wf] in Hwf. destruct Hwf as [_ Hwf]. apply wf_subs in Hwf. rewrite Forall_forall in H, Hwf.
     assert (Hq : forall q, In q subs -> NM (obs_build q rho drop) /\ NM (obs_meas q rho)).
@@ -106,7 +118,12 @@ Proof.
     + apply NM_flat_map. intros q Hin. apply Hq; auto.
   - apply closed_app in C as [Ci Co]. cbn [wf] in Hwf. destruct (IHp Hwf rho drop Ci) as [H1 H2].
     split; [|apply NM_nil]. apply NM_app; split; auto.
-    destruct (wave p rho drop); [apply NM_obs_r; auto|apply NM_nil].
+    destruct (wave p rho drop); [apply NM_obs_r; apply closed_kept; auto|apply NM_nil].
+  - apply closed_app in C as [Ci Co]. cbn [wf] in Hwf. destruct (IHp Hwf rho drop Ci) as [H1 H2].
+    split; auto. apply NM_app; split; auto.
+    destruct (wave p rho drop); [|apply NM_nil]. apply NM_obs_r.
+    apply closed_app in Co as [Ca Cc]. unfold vars_l. rewrite flat_map_app. apply closed_app. split; auto.
+    apply closed_kept; auto.
   - apply closed_app in C as [Cm Cc]. cbn [wf] in Hwf. destruct Hwf as [Hsub Hwf]. rewrite subset_in in Hsub.
     destruct (IHp Hwf (map_env rho m) drop (closed_map_env _ _ _ Cm Hsub)) as [H1 H2].
     split; auto. apply NM_app; split; auto. apply NM_obs_c; auto.
@@ -123,7 +140,11 @@ Proof.
   - destruct (atomic_closed_all _ Hwf rho drop C) as [H1 H2].
     cbn [obs]. apply NM_app; split; auto. destruct (wave _ rho drop); auto. apply NM_nil.
   - cbn [pnames] in C. apply closed_app in C as [Ci Co]. cbn [wf] in Hwf. cbn [obs].
-    apply NM_app; split; [destruct drop; [apply NM_nil|apply NM_obs_r; auto]|apply IHp; auto].
+    apply NM_app; split; [apply NM_obs_r; apply closed_kept; auto|apply IHp; auto].
+  - cbn [pnames] in C. apply closed_app in C as [Ci Co]. cbn [wf] in Hwf. cbn [obs].
+    apply NM_app; split; [|apply IHp; auto]. apply NM_obs_r.
+    apply closed_app in Co as [Ca Cc]. unfold vars_l. rewrite flat_map_app. apply closed_app. split; auto.
+    apply closed_kept; auto.
   - cbn [pnames] in C. apply closed_app in C as [Cc C]. apply closed_app in C as [Cm Cs].
     cbn [wf] in Hwf. apply wf_subs in Hwf. rewrite Forall_forall in H, Hwf. cbn [obs].
     apply NM_app; split; [apply NM_obs_c; auto|]. apply NM_app; split; [apply NM_obs_m; auto|].
@@ -161,6 +182,6 @@ Proof. intros s X H x Hx. apply H; auto. Qed.
 Lemma complete_exact : forall p s drop, wf p -> good s -> covers s (pnames p) ->
   run p s drop = verdict p (lookup s) drop.
 Proof.
-  intros p s drop Hwf G C. destruct (complete_agrees p s drop Hwf G C) as [H|[H _]]; auto.
+  intros p s drop Hwf G C. destruct (complete_agrees p s drop Hwf G C) as [H|H]; auto.
   exfalso. exact (verdict_not_missing p (lookup s) drop Hwf (covers_closed _ _ C) H).
 Qed.
